@@ -42,6 +42,7 @@ Definition schmidt_of_sv (n : nat) (sv : nat -> R) : R :=
 Inductive outcome : Type :=
 | ErrNotSquare
 | ErrSvd
+| OkNaN              (* Ok(NaN): norm_sq * norm_sq / kinv with kinv = 0, i.e. 0/0 — all singular values zero *)
 | OkK (k : R).
 
 (* the element-wise magnitude matrix of a flat complex array *)
@@ -52,7 +53,7 @@ Definition schmidt_number (svd : nat -> (nat -> nat -> R) -> option (nat -> R)) 
     let n := side_of_len (N.of_nat len) in
     match svd n (mag_matrix n a) with
     | None => ErrSvd
-    | Some sv => OkK (schmidt_of_sv n sv)
+    | Some sv => if Req_EM_T (sv_kinv n sv) 0%R then OkNaN else OkK (schmidt_of_sv n sv)
     end
   else ErrNotSquare.
 
